@@ -84,7 +84,8 @@ pub fn run(a: &Args) -> Report {
         eg.seminaive = false;
     }
     let mut log = vec![];
-    for cmd in split_toplevel(&text) {
+    let cmds = if a.get("whole") == Some("1") { vec![text.clone()] } else { split_toplevel(&text) };
+    for cmd in cmds {
         let o = run::run(&mut eg, &cmd);
         let bad = crate::c04::invariants(&eg);
         log.push(json!({"cmd": cmd, "outcome": o.short(), "invariant_violations": bad}));
